@@ -107,3 +107,41 @@ Definition strorder_ok (q1 q2 : node) (sg : Z) (s1 s2 : list Z) : bool :=
 (** obs = [w, w2]: w2 = NewPath(parse(PathStr w) << (h - len), len, h) is the word again *)
 Definition strparse_ok (h : Z) (q : node) (w w2 : Z) : bool :=
   (w =? enc (Z.to_nat h) q) && (w2 =? w).
+
+(** * sessions: PathStr called many times in one process (hidden-state mutants:
+    memo tables, bounded caches, lock-free "last result" words).  PathStr is a
+    pure function of the word: whatever was rendered before, or is being rendered
+    concurrently, every call returns the text of its own node. *)
+
+(** digest of a list of rendered strings (position-weighted, mod 2^64): the compact
+    observation of a bulk session *)
+Fixpoint digest_acc (i acc : Z) (ss : list (list Z)) : Z :=
+  match ss with
+  | [] => acc
+  | s :: t => digest_acc (i + 1) (acc + (parse_bin s + 1) * (zlen s + 1) * i) t
+  end.
+Definition digest (ss : list (list Z)) : Z := digest_acc 1 0 ss mod 2 ^ 64.
+
+(** the nodes of a segment (l, start, count): the l-bit prefixes start, start+1, ... *)
+(** x, x+step, x+2*step, ... (n values) *)
+Fixpoint zrange (n : nat) (x step : Z) : list Z :=
+  match n with O => [] | S k => x :: zrange k (x + step) step end.
+(** the SAMPLED prefixes of a segment (start, count): start, start+stride, ... below start+count *)
+Definition seg_xs (start count stride : Z) : list Z :=
+  zrange (Z.to_nat ((count + stride - 1) / stride)) start stride.
+Definition seg_nodes (l start count stride : Z) : list node :=
+  map (node_of (Z.to_nat l)) (seg_xs start count stride).
+
+(** a bulk session: every l-bit prefix start .. start+count-1 of every segment (h, l, start, count) is
+    rendered, in order (this is what fills a cache); observed: the digest of the texts of every
+    stride-th prefix of each segment, and the texts of the first K prefixes of the first segment
+    rendered AGAIN after the bulk *)
+Definition bulk_nodes (segs : list (Z * Z * Z * Z)) (stride : Z) : list node :=
+  flat_map (fun s => match s with (_, l, start, count) => seg_nodes l start count stride end) segs.
+Definition first_nodes (segs : list (Z * Z * Z * Z)) (K : Z) : list node :=
+  match segs with
+  | [] => []
+  | (_, l, start, count) :: _ => seg_nodes l start (Z.min K count) 1
+  end.
+Definition bulk_spec (segs : list (Z * Z * Z * Z)) (K stride : Z) : Z * list (list Z) :=
+  (digest (map node_str (bulk_nodes segs stride)), map node_str (first_nodes segs K)).
